@@ -31,6 +31,7 @@ type Clnt struct {
 	tagpool  *Pool
 	reqout   chan *Req
 	done     chan bool
+	closed   chan bool
 	reqfirst *Req
 	reqlast  *Req
 	err      error
@@ -110,7 +111,11 @@ func (clnt *Clnt) Rpcnb(r *Req) error {
 	clnt.Unlock()
 
 	verifPoint("rpcnb.enqueued", clnt, r)
-	clnt.reqout <- r
+	select {
+	case clnt.reqout <- r:
+	case <-clnt.closed:
+		// the connection failed meanwhile; r is on the pending list and gets the error
+	}
 	verifPoint("rpcnb.handoff", clnt, r)
 	return nil
 }
@@ -251,7 +256,8 @@ func (clnt *Clnt) recv() {
 
 closed:
 	verifPoint("clnt.recv.closed", clnt)
-	clnt.done <- true
+	clnt.done <- true  // the writer has stopped when this returns
+	close(clnt.closed) // release callers waiting to hand a request to it
 
 	/* send error to all pending requests */
 	clnt.Lock()
@@ -345,6 +351,7 @@ func NewClnt(c net.Conn, msize uint32, dotu bool) *Clnt {
 	clnt.tagpool = NewPool(0, uint32(NOTAG))
 	clnt.reqout = make(chan *Req)
 	clnt.done = make(chan bool)
+	clnt.closed = make(chan bool)
 	clnt.reqchan = make(chan *Req, 16)
 	clnt.tchan = make(chan *Fcall, 16)
 
